@@ -41,9 +41,9 @@ def main(d: str, seed: str, tier: str) -> None:
     t0 = time.time()
     runs = run_specs(specs)
     by = {r["name"]: r for r in runs}
-    bad = [r for r in runs if r["status"] == "builderror"]
+    bad = [r for r in runs if r["status"] in ("builderror", "timeout")]
     if bad:
-        raise MachineryError(f"pair spec could not be built: {bad[0]['name']}: {bad[0]['info']}")
+        raise MachineryError(f"pair run could not be executed: {bad[0]['name']}: {bad[0]['status']} {bad[0]['info']}")
     pairs = []
     for a, b in tw:
         pairs.append({"name": a["name"], "kind": "twin", "a": by[a["name"]]["events"], "b": by[b["name"]]["events"]})
